@@ -121,3 +121,21 @@ Fixpoint sz (n : node) : nat :=
   | NLit _ _ | NRef _ _ _ => 1
   | NArr _ _ l | NObj _ _ l => S (fold_right (fun c a => sz c + a) 0 l)
   end.
+
+(* the universe of type names and the largest root over the nested tables, and the fuel that is enough for the
+   checker (Proofs/RecursionTermination.v: check_terminates) *)
+Fixpoint e_names (e : entry) : list tname :=
+  match e with
+  | Entry _ own => (fix go (l : table) : list tname :=
+                      match l with [] => [] | (n, e') :: r => n :: e_names e' ++ go r end) own
+  end.
+Fixpoint e_max (e : entry) : nat :=
+  match e with
+  | Entry r own => Nat.max (sz r) ((fix go (l : table) : nat :=
+                                      match l with [] => 0 | (_, e') :: rest => Nat.max (e_max e') (go rest) end) own)
+  end.
+Fixpoint t_names (tb : table) : list tname := match tb with [] => [] | (n, e) :: r => n :: e_names e ++ t_names r end.
+Fixpoint t_max (tb : table) : nat := match tb with [] => 0 | (_, e) :: r => Nat.max (e_max e) (t_max r) end.
+Definition check_fuel (rootnode : node) (roott : table) : nat :=
+  sz rootnode + length (nodup N.eq_dec (t_names roott)) * S (t_max roott).
+
